@@ -415,6 +415,24 @@ fn find_function_type(
     ))
 }
 
+/// Reject arguments for out and inout parameters that are parts of const objects
+fn ensure_output_arguments_are_mutable(
+    id: ir::FunctionId,
+    param_values: &[ir::Expression],
+    call_location: SourceLocation,
+    context: &Context,
+) -> TyperResult<()> {
+    let signature = context.module.function_registry.get_function_signature(id);
+    for (param_type, value) in signature.param_types.iter().zip(param_values) {
+        if param_type.input_modifier != ir::InputModifier::In
+            && value.is_const_path(&context.module)
+        {
+            return Err(TyperError::MutableRequired(call_location));
+        }
+    }
+    Ok(())
+}
+
 fn apply_casts(
     casts: Vec<ImplicitConversion>,
     values: Vec<ir::Expression>,
@@ -447,6 +465,7 @@ fn write_function(
     )?;
     // Apply implicit casts
     let param_values = apply_casts(casts, param_values, context);
+    ensure_output_arguments_are_mutable(id, &param_values, call_location, context)?;
 
     let return_type = context
         .module
@@ -502,6 +521,7 @@ fn write_method(
     )?;
     // Apply implicit casts
     let mut param_values = apply_casts(casts, param_values, context);
+    ensure_output_arguments_are_mutable(id, &param_values, call_location, context)?;
     // Add struct as implied first argument
     param_values.insert(0, unresolved.object_value);
 
@@ -620,6 +640,22 @@ fn parse_expr_unaryop(
                     )),
                     _ => Ok(()),
                 }
+            }
+
+            // Parts of const objects can not be modified either
+            if matches!(
+                op,
+                ast::UnaryOp::PrefixIncrement
+                    | ast::UnaryOp::PrefixDecrement
+                    | ast::UnaryOp::PostfixIncrement
+                    | ast::UnaryOp::PostfixDecrement
+            ) && expr_ir.is_const_path(&context.module)
+            {
+                return Err(TyperError::UnaryOperationWrongTypes(
+                    op.clone(),
+                    ErrorType::Unknown,
+                    base_location,
+                ));
             }
 
             let mut is_trivial = false;
@@ -1107,6 +1143,7 @@ fn parse_expr_binop(
                 .extract_modifier(lhs_type.0)
                 .1
                 .is_const
+                || lhs_ir.is_const_path(&context.module)
             {
                 return Err(TyperError::MutableRequired(lhs.get_location()));
             }
